@@ -586,6 +586,84 @@ class Diff(Part):
         return Outcome(viol, labels, nchildren >= 2 and n >= 2 and bad)
 
 
+@st.composite
+def spawnfail_cases(draw):
+    """k independent layers one of which cannot be started in a subprocess (its --resume-layer argument is longer than
+    the kernel accepts for one argument, so Popen raises OSError E2BIG); sequentially the layer is an ordinary layer"""
+    k = draw(st.integers(2, 4))
+    names = list(draw(st.permutations(gen.LAYER_NAMES)))[:k]
+    victim = draw(st.integers(0, k - 1))
+    names[victim] = names[victim] + 'x' * draw(st.sampled_from([131072, 140000]))
+    layers = [{'name': nm, 'kind': 'class', 'bases': [], 'hooks': ['setUp', 'tearDown']} for nm in names]
+    ch = []
+    tok = 0
+    for i in range(k):
+        tests = []
+        for j in range(draw(st.integers(1, 3))):
+            tok += 1
+            tests.append({'n': 'test_%d' % j, 'k': draw(st.sampled_from(['pass', 'pass', 'pass', 'fail', 'error', 'skip_body'])),
+                          'acts': {'body': [['out', 'p', 'Tk%dq' % tok]]}})
+        ch.append({'t': 'c', 'name': 'TC%d' % i, 'layer': i, 'tests': tests})
+    if draw(st.booleans()):
+        ch.append({'t': 'c', 'name': 'TCU', 'tests': [{'n': 'test_u', 'k': 'pass'}]})
+    return {'spec': {'layers': layers, 'modules': [{'name': 'a', 'tree': {'t': 's', 'ch': ch}}]}, 'victim': victim,
+            'n': draw(st.integers(2, k + 1)), 'verbose': draw(st.integers(0, 3))}
+
+
+class SpawnFail(Part):
+    """one of the layers cannot be started (Popen raises OSError): the run ends, the layer is recorded as an error, and
+    every *other* layer is still printed as one block, in the sequential order, with its summary and its tests' output"""
+    name = 'spawnfail'
+    examples = {'quick': 48, 'thorough': 800}
+
+    def strategy(self, tier):
+        return spawnfail_cases()
+
+    def execute(self, case):
+        spec = common.with_prefix(copy.deepcopy(case['spec']))
+        n, v = case['n'], case['verbose']
+        tag = 'j%d' % n
+        victim = model.layer_fullname(spec, case['victim'])
+        viol = []
+        seq = drive.run_inproc(spec, common.args_of({'verbose': v}), disk=True)
+        viol += [(s + '/sequential', m) for s, m in common.run_escaped(seq, 'C06')]
+        par = drive.run_inproc(spec, common.args_of({'verbose': v, 'j': n}), disk=True)
+        viol += [(s + '/' + tag, m) for s, m in common.run_escaped(par, 'C06')]
+        vshort = spec['layers'][case['victim']]['name']
+        started = any(e['pid'] != par.main_pid and e['ev'] == 'L' and e.get('layer') == vshort for e in par.trace)
+        if seq.exc is None and par.exc is None and not started:
+            ps = parse.parse(seq.out)
+            pp = parse.parse(strip_keepalive(par.out))
+            short = lambda x: str(x).replace(spec['mp'], '').replace('x' * 1000, '')    # noqa: E731
+            if par.failed is not True:
+                viol.append(('C06/unstartable-layer-not-a-failure/' + tag, 'a layer subprocess could not be started but '
+                             'the verdict is failed=%s' % par.failed))
+            hs = [blk.layer for blk in ps.blocks if blk.layer != victim]
+            hp = [blk.layer for blk in pp.blocks if blk.layer not in (EMPTY, victim)]
+            if hs != hp:
+                viol.append(('C06/layer-order-differs/' + tag, 'one layer could not be started; sequential prints the other '
+                             'layers as %s, -j%d prints %s' % (short(hs), n, short(hp))))
+            rs = {blk.layer: blk.ran for blk in ps.blocks}
+            rp = {blk.layer: blk.ran for blk in pp.blocks}
+            for ln in hs:
+                if ln in rp and rs[ln] != rp[ln]:
+                    viol.append(('C06/layer-summary-differs/' + tag, 'layer %s: sequential %s, -j%d %s'
+                                 % (short(ln), rs[ln], n, rp[ln])))
+            where, tl = check_blocks(spec, pp, par.out, tag, viol)
+            seq_tokens = set(RE_TOKEN.findall(seq.out))
+            lost = [t for t, ln in tl.items() if ln != victim and t not in where and t in seq_tokens]
+            if lost:
+                viol.append(('C06/output-lost/' + tag, 'printed by the sequential run but not by -j%d: %s' % (n, lost[:5])))
+            a = Counter({t: c for t, c in executed(seq).items()
+                         if traceana.World(spec).tests.get(t, {}).get('layer_name') != victim})
+            b = executed(par)
+            if a != b:
+                viol.append(('C06/executed-tests-differ/' + tag, 'tests of the layers that could be started: sequential '
+                             '%d, -j%d %d' % (sum(a.values()), n, sum(b.values()))))
+        labels = ['N=%d' % n, 'v%d' % v, 'victim-started' if started else 'victim-not-started']
+        return Outcome(viol, labels, not started)
+
+
 class C06(Prop):
     id = 'C06'
     registered = True
@@ -606,10 +684,11 @@ class C06(Prop):
     rule = ('sched: Hypothesis worlds with barrier points in test setUp/body/tearDown, release priority = generated '
             'permutation of all barrier points; non-trivial = N>=2 and the layers finish in an order different from the '
             'sequential layer order. diff: bigger worlds, natural schedule; non-trivial = N>=2, >=2 child processes and '
-            '>=1 bad test. Distinct by hash of (world, N, verbosity, priority order).')
+            '>=1 bad test. spawnfail: 2..4 independent layers one of which cannot be started (argument too long for '
+            'exec); non-trivial = that layer really was not started. Distinct by hash of (world, N, verbosity, priority order).')
     assumptions = ('CLOCK_MONOTONIC is common to all processes of a run',
                    'a child is alive between its first trace event and its child_exit event')
-    parts = (Sched(), Diff())
+    parts = (Sched(), Diff(), SpawnFail())
 
 
 PROP = C06()
